@@ -4,6 +4,7 @@
 //! usage: verif-harness <command> <casefile>
 mod bits;
 mod budget;
+mod findings;
 mod util;
 
 use std::io::{BufRead, Write};
@@ -15,7 +16,9 @@ fn main() {
         std::process::exit(2);
     }
     // silence panic messages: panics are data here
-    std::panic::set_hook(Box::new(|_| {}));
+    if std::env::var_os("VERIF_PANIC_MSG").is_none() {
+        std::panic::set_hook(Box::new(|_| {}));
+    }
     let file = std::fs::File::open(&args[2]).expect("open case file");
     let rd = std::io::BufReader::new(file);
     let out = std::io::stdout();
@@ -31,6 +34,7 @@ fn main() {
         let res: String = match args[1].as_str() {
             "bits" => bits::run(&toks[1..]),
             "budget" => budget::run(&toks[1..]),
+            "findings" => findings::run(&toks[1..]),
             other => {
                 eprintln!("unknown command {}", other);
                 std::process::exit(2);
